@@ -1,0 +1,80 @@
+//go:build verif
+
+package device
+
+// Hooks for property C20: life-cycle events that involve a peer that has
+// already been stopped.  Add-only; nothing here is reachable without the tag.
+
+// VerifStaleSender looks the peer up NOW and returns a function that makes,
+// LATER, the send calls of a caller that holds the peer from before a
+// Peer.Stop (the handshake worker after a valid response, the route-change
+// listener's SendKeepalivesToPeersWithCurrentKeypair, a TUN reader): first
+// SendKeepalive, then SendStagedPackets.  The returned function makes the
+// calls only when the peer is not running at that moment (after Down, after
+// its removal, after Close) and reports whether it made them.  It keeps the
+// peer reachable for as long as it is referenced.
+func (device *Device) VerifStaleSender(pk NoisePublicKey) (call func() bool, ok bool) {
+	device.peers.RLock()
+	peer := device.peers.keyMap[pk]
+	device.peers.RUnlock()
+	if peer == nil {
+		return nil, false
+	}
+	return func() bool {
+		if peer.isRunning.Load() {
+			return false
+		}
+		peer.SendKeepalive()
+		peer.SendStagedPackets()
+		return true
+	}, true
+}
+
+// VerifInjectLockedStragglers is VerifInjectStragglers with the containers
+// still LOCKED, as their producer (RoutineReceiveIncoming, SendStagedPackets)
+// queues them: the caller plays the crypto worker that has not finished with
+// them yet and calls release (once) when it has.  Until then a flush of the
+// peer's autodraining queues (Peer.Start, queue finaliser) has to wait for the
+// container.  The peer must not be running.
+func (device *Device) VerifInjectLockedStragglers(pk NoisePublicKey, nIn, nOut int) (release func(), ok bool) {
+	device.peers.RLock()
+	peer := device.peers.keyMap[pk]
+	device.peers.RUnlock()
+	if peer == nil || peer.isRunning.Load() {
+		return nil, false
+	}
+	var unlocks []func()
+	if nIn > 0 {
+		c := device.GetInboundElementsContainer()
+		for i := 0; i < nIn; i++ {
+			e := device.GetInboundElement()
+			e.buffer = device.GetMessageBuffer()
+			e.packet = e.buffer[:MessageTransportSize]
+			e.counter = 0
+			e.keypair = nil
+			e.endpoint = nil
+			c.elems = append(c.elems, e)
+		}
+		c.Lock()
+		unlocks = append(unlocks, c.Unlock)
+		peer.queue.inbound.c <- c
+	}
+	if nOut > 0 {
+		c := device.GetOutboundElementsContainer()
+		for i := 0; i < nOut; i++ {
+			e := device.NewOutboundElement()
+			e.packet = e.buffer[:MessageTransportSize]
+			e.peer = peer
+			c.elems = append(c.elems, e)
+		}
+		c.Lock()
+		unlocks = append(unlocks, c.Unlock)
+		peer.queue.outbound.c <- c
+	}
+	return func() {
+		for _, u := range unlocks {
+			u()
+		}
+		unlocks = nil
+	}, true
+}
